@@ -108,6 +108,11 @@ def job_reject(job):
 def job_random(job):
     seed, directed, removal, nnodes, tmax, length, lab = job
     rng = random.Random(seed)
+    if length > 100:
+        # a long history on a large universe: observed once, at the end (plus forks)
+        calls = [c for c in drivers.rand_history(rng, nnodes, tmax, length, bulk=0.1) if c["op"] not in ("clear", "clear_edges")]
+        forks = [drivers.rand_add(rng, nnodes, tmax) for _ in range(3)]
+        return drivers.make_trace(directed, removal, calls, labeling=lab, forks=forks, rng=rng, observe_every=False)
     calls = drivers.rand_history(rng, nnodes, tmax, length)
     nforks = 6
     forks = [drivers.rand_add(rng, nnodes, tmax) for _ in range(nforks)] + [drivers.rand_bulk(rng, nnodes + 1, tmax) for _ in range(3)]
@@ -227,6 +232,9 @@ def run(prop, tier, seed):
         tmax = rng.choice([4, 8, 20, 40])
         jobs.append((rng.randrange(1 << 30), directed, removal, nn, tmax, rng.randint(2, 25 if tier == "quick" else 40),
                      rng.choice(LABS)))
+    for i in range(6 if tier == "quick" else 120):
+        jobs.append((rng.randrange(1 << 30), rng.random() < 0.5, rng.choice(modes_wanted), rng.choice([15, 25]),
+                     rng.choice([120, 250]), rng.choice([120, 180]), rng.choice(["int", "zero", "neg", "big", "str"])))
     chk.run_jobs(job_random, jobs, "rand", chunk=1500)
     repo_test_traces(chk)
     if tier == "thorough":
